@@ -72,6 +72,8 @@ structure WfP (e : Env ℝ) (p : Particle ℝ) : Prop where
   Cs : p.integrate = true → p.issoluble = true → p.Cs.length = e.nchems
   k_bio : p.integrate = true → p.issoluble = true → p.k_bio.length = e.nchems
   m : p.integrate = true → p.issoluble = true → p.m.length = e.nchems
+  negdH : p.integrate = true → p.issoluble = true → p.negdH.length = e.nchems
+  Mw : p.integrate = true → p.issoluble = true → p.Mw.length = e.nchems
 
 def Wf (e : Env ℝ) (ps : List (Particle ℝ)) : Prop := ∀ p ∈ ps, WfP e p
 
@@ -276,6 +278,15 @@ theorem dmStep_outside (e : Env ℝ) (dm : List ℝ) (p : Particle ℝ) (h : p.i
 theorem derivs_drop11 (e : Env ℝ) (ps : List (Particle ℝ)) :
     (derivs e ps).drop 11 = ps.flatMap (block e) ++ (dissolvedSlots e ps ++ tracerSlots e) := by
   simp [derivs, headSlots]
+
+/-! ### definitional read-back of the kinematic slots (not a property theorem) -/
+
+/-- the remaining element slots: vertical momentum (buoyancy + entrained wa), constant h/V, advection -/
+theorem kinematic_slots (e : Env ℝ) (ps : List (Particle ℝ)) :
+    (derivs e ps).getD 5 0 = -e.g / (e.gamma * e.rho_r) * (e.Fb + e.M * (e.rho_a - e.rho)) + e.md * e.wa ∧
+    (derivs e ps).getD 6 0 = 0 ∧ (derivs e ps).getD 7 0 = e.u ∧ (derivs e ps).getD 8 0 = e.v ∧
+    (derivs e ps).getD 9 0 = e.w ∧ (derivs e ps).getD 10 0 = e.V := by
+  simp [derivs, headSlots, jzSlot]
 
 /-! ### a concrete state used for the non-vacuity examples of Props/C03, Props/C04 -/
 
